@@ -21,7 +21,16 @@ def replay(rec):
     print('recorded :', rec.get('what'))
     done = False
     formula = w.get('formula')
-    if isinstance(formula, str) and formula.startswith('='):
+    series = w.get('assignments_in_order')
+    if isinstance(formula, str) and formula.startswith('=') and series:
+        try:
+            outs = subject.eval_series([formula], series)
+        except Exception as e:  # noqa
+            outs = [[('raised-in-replay', repr(e))]]
+        for step, (asg, o) in enumerate(zip(series, outs or [])):
+            print(f'replayed : step {step} inputs {asg} -> {o[0]}')
+        done = True
+    elif isinstance(formula, str) and formula.startswith('='):
         cells = w.get('cells') or w.get('inputs') or {}
         inputs = {}
         if isinstance(cells, dict):
